@@ -41,7 +41,7 @@ func (e ext) class() string {
 	if e.Fam == "covered" {
 		t = e.X // the index pattern; the list and whole / partial are in the payload
 	} else if e.Fam == "decoded" {
-		t = e.X
+		t = e.T // the document is in the payload
 	} else if e.T2 != "" {
 		t += "+" + e.T2
 	}
